@@ -39,8 +39,9 @@ Definition frev {A} (l:list A) : list A := rev_append l [].
 
 (* ---- lists indexed by N ---- *)
 Definition len {A} (l:list A) : N := N.of_nat (length l).
-Definition take {A} (n:N) (l:list A) : list A := firstn (N.to_nat n) l.
-Definition drop {A} (n:N) (l:list A) : list A := skipn (N.to_nat n) l.
+(* n is clamped to the length first: N.to_nat of a huge (garbage) number must never be built *)
+Definition take {A} (n:N) (l:list A) : list A := firstn (N.to_nat (N.min n (len l))) l.
+Definition drop {A} (n:N) (l:list A) : list A := skipn (N.to_nat (N.min n (len l))) l.
 Definition slice {A} (a b:N) (l:list A) : list A := take (b - a) (drop a l).   (* l[a..b] *)
 
 (* chunks_exact: whole chunks of k elements, the remainder is dropped (k > 0) *)
